@@ -169,6 +169,15 @@ def handle (l : Line) : IO Unit := do
   | "fd" => handleFd l
   | "pr" => handlePr l
   | "alias" => handleAlias l
+  | "sw" =>
+    -- Samples built without NewSample / with caller-set Warnings: results equal those of NewSample
+    -- samples of the same values; warnings of earlier summaries unchanged; caller's slice untouched
+    let ops := (l.getD "ops").splitOn ","
+    IO.println s!"obs {l.id} ops={ops.length}"
+    let bad := ((ops.zip (((l.getD "ra").splitOn ",").zip ((l.getD "rf").splitOn ","))).filter fun (_, (x, y)) => x != y).map (·.1)
+    let same := if bad.isEmpty then "ok" else "differs-from-NewSample:" ++ "+".intercalate (bad.take 3)
+    let again := if l.getD "w1" == l.getD "w2" then "ok" else "earlier-summary-rewritten"
+    IO.println s!"spec {l.id} same={same} again={again} in=kept"
   | "conc" =>
     -- calls from several goroutines at once on the same samples: every result equals the sequential one
     let jobs := (l.getD "jobs").splitOn ","
